@@ -10,7 +10,6 @@ import (
 	"github.com/attestantio/go-eth2-client/spec/phase0"
 	"github.com/attestantio/vouch/internal/vnd"
 	nullmetrics "github.com/attestantio/vouch/services/metrics/null"
-	"github.com/rs/zerolog"
 )
 
 type c15Submitter struct {
@@ -29,7 +28,7 @@ func (s *c15Submitter) SubmitSyncCommitteeSubscriptions(_ context.Context, subs 
 // c15New builds the subscriber the way main does: through New.
 func c15New(sub *c15Submitter) *Service {
 	s, err := New(context.Background(),
-		WithLogLevel(zerolog.Disabled),
+		WithLogLevel(vnd.LogLevel()),
 		WithMonitor(&nullmetrics.Service{}),
 		WithSyncCommitteeSubmitter(sub),
 	)
